@@ -23,7 +23,7 @@ claim("C02", "F-INIT definite attribute assignment over the class hierarchy; dom
       "sums over duplicates / applying never modifies the input': required attributes are assigned on every constructor path, the "
       "domain/mode check dominates every use of the input, every advertised mode reaches a valued return, locally constructed "
       "results are built on _tgt(mode), no store targets (a view of) the input's buffer, and scatters through repeating indices "
-      "accumulate; result buffers allocated in apply() take their dtype from the input, the linear interpolator derives base cell and excess from one floor with corner weights prod|1-c-e|, the outer product's adjoint contracts with the conjugated field, and nested sums are unpacked with XOR-ed sign flags. The inner-product identity in general and the numerical action are not decided.", TRUST, "DESIGN.md section 4, C02")
+      "accumulate; result buffers allocated in apply() take their dtype from the input, the linear interpolator derives base cell and excess from one floor with corner weights prod|1-c-e|, the outer product's adjoint contracts with the conjugated field, and nested sums are unpacked with XOR-ed sign flags; the sandwich shortcut scales by |f|^2, the JAX linear wrapper's adjoint is the conjugate transpose, and the regridding weights are broadcast over all axes of the array. The inner-product identity in general and the numerical action are not decided.", TRUST, "DESIGN.md section 4, C02")
 
 claim("C21", "who-may-call scan of randomness sources; CFG pairing (push/pop on every exit); context-manager protocol check; def-use typestate of JAX keys",
       "Decides the randomness discipline that makes a run a function of its seed: generators are only derived from the seed "
@@ -58,7 +58,7 @@ claim("C01", "exhaustive constant evaluation of the mode/capability tables again
 claim("C06", "sibling/table comparison of the setattr-generated dunder tables; dominance of the domain-identity check; argument-order tracing along the vdot call chain",
       "Decides that field arithmetic is delegated name-preservingly to the array layer (so a-b can never run __add__), that "
       "operands on different domains are rejected before any computation, and that the first argument of every dot product is "
-      "the conjugated one along the whole call chain (invisible to tests on real fields). Later rules decide further shape clauses: var and s_var use the same squared deviation per dtype, dot-product back ends cast an operand only under its own dtype test, the order of a norm reaches numpy on every layer and the multi-field norm is the p-norm of the partial p-norms (two-entry symbolic reading), every return of the contraction helper applies the reduction, and Field.weight writes non-scalar volumes at array axes, not at sub-domain indices. The numerical values of volumes and reductions are not decided.", TRUST, "DESIGN.md section 4, C06")
+      "the conjugated one along the whole call chain (invisible to tests on real fields). Later rules decide further shape clauses: var and s_var use the same squared deviation per dtype, dot-product back ends cast an operand only under its own dtype test, the order of a norm reaches numpy on every layer and the multi-field norm is the p-norm of the partial p-norms (two-entry symbolic reading), every return of the contraction helper applies the reduction, and Field.weight writes non-scalar volumes at array axes, not at sub-domain indices; integrate/s_integrate/mean/s_mean are read on a two-pixel symbolic field with general and uniform volumes and equal sum v_i x_i resp. its quotient with sum v_i. The numerical values of volumes and reductions are not decided.", TRUST, "DESIGN.md section 4, C06")
 
 claim("C23", "rank-taint (F-UNIFORM) over reaching definitions, guard extraction for the send/receive roles, protocol-sequence comparison of _send/_recv",
       "Checks the four premises of the deadlock-freedom / partition-independence argument on the source: all tasks execute the same "
@@ -93,7 +93,7 @@ claim("C14", "status-discipline dominance check over every return of ConjugateGr
       "Decides that CG reports CONVERGED only under an exact-zero residual test or as the controller's verdict on the very energy it "
       "returns, that every iteration consults the controller, that the gradient handed to at_with_grad is the recurrence residual of "
       "the step actually taken, and that in both constructor branches of the quadratic energy Ax - gradient = b with the value built "
-      "from the same Ax; iteration controllers re-initialise in start() every attribute check() reads or updates, the CG driver never stores into the energy object, and the relative energy criterion divides by max(|E_old|, |E|) without an absolute floor. That the residual criterion is numerically met is not decided.", TRUST, "DESIGN.md section 4, C14")
+      "from the same Ax; iteration controllers re-initialise in start() every attribute check() reads or updates, the CG driver never stores into the energy object, and the relative energy criterion divides by max(|E_old|, |E|) without an absolute floor, the stochastic controller's memory is a sliding window of exactly memory_length entries, and InversionEnabler keeps no identity-keyed memo of solutions. That the residual criterion is numerically met is not decided.", TRUST, "DESIGN.md section 4, C14")
 
 claim("C15", "sibling comparison after normalisation: guarded-assignment extraction with where/cond unfolding, mode-free symbolic forward substitution of one regular iteration in both solvers, sign-domain check of the fallback step",
       "Decides that the eager and the compiled CG are the same algorithm: every defining term of the shared state, the complete "
@@ -164,7 +164,7 @@ claim("C18", "structural checks of the mirror / zero-residual clauses (same-inde
       "residuals are M^-1 applied to a draw with covariance M = L + P built from independent draws (nifty.re: one key split, likelihood "
       "draw through left_sqrt_metric at the sampling position plus a standard-normal draw of the liquid shape, CG with likelihood.metric "
       "+ identity at the same position, failure raises; classic SamplingEnabler: s ~ P^-1, n ~ L, (L+P) x = P s + n started at s with "
-      "the matching initial gradient, exact linear normal form). That the draws themselves have the stated covariances and that CG "
+      "the matching initial gradient, exact linear normal form over a straight-line reading of both start variants); the point-estimate split reaches every helper (19 call sites), and the transformation's sampling dtype reaches the white-noise draw of geometric sampling. That the draws themselves have the stated covariances and that CG "
       "converges is numerical/statistical and not decided.", TRUST, "DESIGN.md section 9.6")
 
 claim("C19", "def-use / delegation checks of SampledKLEnergyClass, ResidualSampleList.at, Samples.at, _kl_vg/_kl_met and the typed insert/remove table of kl_minimize",
@@ -173,7 +173,7 @@ claim("C19", "def-use / delegation checks of SampledKLEnergyClass, ResidualSampl
       "sample count; the optimised position excludes the constant keys; moving the expansion point passes residuals and sign flags on "
       "unchanged; in nifty.re the standard Hamiltonian is likelihood + 1/2<x,x> (metric + identity), _kl_vg/_kl_met map "
       "value_and_grad / metric over pos + residual along axis 0 and reduce with the mean over that axis, and kl_minimize with constants "
-      "optimises only the liquid part (typed insert/remove table for value_and_grad, metric and result). Numerical equality with "
+      "optimises only the liquid part (typed insert/remove table for value_and_grad, metric and result), with frozen and liquid leaves split by one partition pass in pytree leaf order. Numerical equality with "
       "sample averages is not decided.", TRUST, "DESIGN.md section 9.6")
 
 claim("C04", "def-use / dominance check of EnergyAdapter's constant handling; per-pixel term identity of the hand-written energy specialisation; sibling/structure rules on the combinators' specialisation methods",
@@ -184,7 +184,7 @@ claim("C04", "def-use / dominance check of EnergyAdapter's constant handling; pe
       "real and complex sampling, the full energy with the constant inserted (terms read from both classes, sympy as normaliser); "
       "_OpProd/_OpSum/SumOperator hand each constituent the constants of its own domain and rebuild the same combinator in order, "
       "chains walk from the input side threading the constant output, the generic fallback inserts the constants in front of the "
-      "unchanged operator. Equality of value/Jacobian/metric for arbitrary operator expressions is numerical and not decided.", TRUST,
+      "unchanged operator; a specialised StandardHamiltonian keeps the prior energy of the constant keys (stored offset, per-pixel term check), the specialised gamma energy has the Fisher metric, and a constant energy delivers a null metric when one is wanted. Equality of value/Jacobian/metric for arbitrary operator expressions is numerical and not decided.", TRUST,
       "DESIGN.md section 9.6")
 
 claim("C30", "term comparison: function bodies of the closed-form transforms read into symbolic terms (Phi/PhiInv abstract) and compared with a frozen table of textbook quantile and moment formulas, sympy as normaliser; structural check of the tabulated quantile compositions",
@@ -192,7 +192,7 @@ claim("C30", "term comparison: function bodies of the closed-form transforms rea
       "the documented quantile maps at Phi(xi) and increasing, each provided inverse composed with its transform is the identity, "
       "lognormal_moments (both APIs) reproduces mean and std, the classic UniformOperator/LaplaceOperator values, Jacobians and "
       "inverses agree with the quantile formulas, the interpolated operators tabulate <dist>.ppf(norm cdf(x), shape) with the "
-      "documented scaling, and the (mode, mean, var) <-> (alpha, q, theta) conversions are mutually consistent. The accuracy of "
+      "documented scaling, the (mode, mean, var) <-> (alpha, q, theta) conversions are mutually consistent (read order-independently), the interpolation table reaches xmax, and the moment conversions do not modify their arguments. The accuracy of "
       "the interpolation tables and of scipy/jax special functions is numerical and not decided.",
       TRUST + " sympy 1.14 (offline wheelhouse) as algebraic normaliser; the quantile/moment table is the checker's own (textbook formulas).",
       "DESIGN.md section 9.7")
@@ -201,7 +201,7 @@ claim("C36", "def-use tracing from the reported names to the accumulated terms; 
       "Decides only the formula clause: in nifty.re the per-leaf statistics are sum(x)/size and vdot(x,x).real/ndof with ndof = size "
       "(real) or 2*size (complex), mapped over the samples and reported as [mean, std] in this order; in nifty.cl.extra.minisanity the "
       "values reported as redchisq / scmean / ndof / nigndof are nansum(|x|^2)/n, nansum(x)/n, n = size - #NaN - #zero and #NaN + #zero "
-      "of the normalised residual (slot 0) and of the sample itself (slot 1). The sample averaging (StatCalculator, jnp.mean/std), the "
+      "of the normalised residual (slot 0) and of the sample itself (slot 1); the divisions by the entry count are guarded against 0/0, the stored per-sample lambdas capture no variable that is re-assigned later, and nifty.re applies `func` on every input path. The sample averaging (StatCalculator, jnp.mean/std), the "
       "printed table and the agreement of the two implementations (which differ by design in what they ignore) are not decided.",
       TRUST, "DESIGN.md section 9.8")
 
@@ -210,7 +210,7 @@ claim("C29", "abstract interpretation of the row-wise array updates into a symbo
       "integrated Wiener process is extracted from the code as terms; two steps dt1, dt2 equal one step dt1+dt2 in mean map and "
       "covariance (necessary for exactness on every, also non-uniform, grid), the Wiener and integrated-Wiener step covariances equal "
       "the closed form of the documented SDE (with asperity), the OU stationary variance matches its default initial state, the generic "
-      "generator implements res_(i+1) = drift_i res_i + diffamp_i xi_i and the wrappers/constructors hand their terms over in order. "
+      "generator implements res_(i+1) = drift_i res_i + diffamp_i xi_i (or, written as a parallel prefix, composes the affine maps in the order its offset term implies), the wrappers/constructors hand their terms over in order, and state priors draw one excitation per validated state component. "
       "Sampled covariances over whole grids, time-varying parameters beyond this structure and numerical accuracy are not decided.",
       TRUST + " sympy 1.14 (offline wheelhouse) as algebraic normaliser; the SDE covariance table is the checker's own (textbook formulas).",
       "DESIGN.md section 9.8")
@@ -220,7 +220,7 @@ claim("C35", "structural rules over AST/CFG with mode specialisation: index-set 
       "and zeroes the complement of an uninitialised result; FieldZeroPadder pads/crops the leading block (or the two central "
       "halves, same slices in both directions, the adjoint accumulating the overlap); RegriddingOperator uses the same (index, weight) "
       "pairs forward and adjoint with weights (1-w, w) and b clamped to shape-2; LinearInterpolator builds its matrix from ONE floor "
-      "(base cell and excess), corner weights prod|1-c-e|, wrapped flat column index of base+corner, forward matvec / adjoint rmatvec. "
+      "(base cell and excess), corner weights prod|1-c-e|, wrapped flat column index of base+corner, forward matvec / adjoint rmatvec; the regridding source coordinate is i*shape/new_shape exactly; the sampling line of sight uses segment midpoints with weight length/n. "
       "Line-of-sight integrals, non-uniform FFTs and all numerical accuracy are not decided.", TRUST, "DESIGN.md section 9.8")
 
 claim("C31", "per-dimension symbolic reading of the index maps and level recurrences (broadcast subscripts stripped), nesting identities decided on terms with sympy and a floor rule for 0 <= c < split; structural delegation check for the flat grid",
@@ -228,7 +228,7 @@ claim("C31", "per-dimension symbolic reading of the index maps and level recurre
       "parent(children(i)) = i, the children of the (refined) indices tile the next level, a child's centre lies at (c+1/2)/split of "
       "its parent's cell, coord2index(index2coord(i)) = i, cell volumes add up under refinement, the level recurrences "
       "shape(l+1) = split*(shape - 2*padding), shifts(l+1) = split*(shifts + padding) hand splits/paddings to the right levels, "
-      "and FlatGridAtLevel converts flat->index, delegates and converts back with level shift +1 / -1 / 0. HEALPix and logarithmic "
+      "and FlatGridAtLevel converts flat->index, delegates and converts back with level shift +1 / -1 / 0; the open grid's coordinate round trip also holds at fractional shifts; the nest-ordered mixed-radix flat index is decoded against the encoder's loop directions with the same radix and place value; HEALPix neighbourhoods come from the validating routine. HEALPix and logarithmic "
       "grids, multi-grids, neighbourhood wrapping details, the mixed-radix flat index arithmetic and out-of-range handling are not decided.",
       TRUST + " sympy 1.14 (offline wheelhouse) as algebraic normaliser.", "DESIGN.md section 9.8")
 
@@ -239,7 +239,7 @@ claim("C34", "structural/term rules: role-based reading of the Lanczos step (sta
       "estimate is dimension * mean, and both estimate_evidence_lower_bound implementations assemble "
       "tr_log_lat_cov + metric_size/2 - energy(sample) - prior term with tr_log_lat_cov = -1/2 sum log(eigenvalues), the analytic "
       "prior term (trace_inv_total + |mean|^2)/2 paired with the likelihood-only energy, the documented lower error and mean +/- std "
-      "bounds, identically in both. Exactness in the limit, eigenvalue accuracy and the SLQ error estimates are not decided; the ELBO "
+      "bounds, identically in both; on resume the precomputed count shortens exactly one eigenvalue batch, the trace-space dependent shifts reach every helper, and deflated SLQ probes are normalised with a guarded denominator. Exactness in the limit, eigenvalue accuracy and the SLQ error estimates are not decided; the ELBO "
       "rules identify quantities by their local names and report undecided (exit 2, no alarm) if those are renamed.",
       TRUST, "DESIGN.md section 9.8")
 
@@ -255,7 +255,7 @@ claim("C28", "symbolic reading of the amplitude models over three abstract modes
       "Decides only the amplitude clause: the JAX non-parametric and Matern amplitude models return, for both kinds, an amplitude "
       "with sum_{k>0} multiplicity_k * a_k^2 = (fluctuations * total_volume)^2 - the identity behind 'the variance of a realisation "
       "equals the square of the model's own fluctuation' for every grid and volume - and a zero mode equal to the total volume; the "
-      "classic and the JAX Matern amplitudes are the same function scale*sqrt(V)*(1+(k/cutoff)^2)^(slope/4). The classic "
+      "classic and the JAX Matern amplitudes are the same function scale*sqrt(V)*(1+(k/cutoff)^2)^(slope/4); product-fluctuation formulas and axis typing of the Fourier mode lengths; in the classic maker the zero-mode amplitude is divided out of the normalised amplitudes exactly when finalize multiplies by it (four kinds of setting enumerated) and no memoised result survives a change of its inputs; the JAX mode multiplicities are the bincount of the returned index map and the mean offset is added in position space. The classic "
       "non-parametric amplitude, product spectra (slice/average fluctuation formulas) and the numerical agreement of whole fields are "
       "not decided.", TRUST + " sympy 1.14 (offline wheelhouse) as algebraic normaliser.", "DESIGN.md section 9.8")
 
@@ -263,6 +263,6 @@ claim("C05", "def-use / dominance rules on the optimiser's driver and pairing ru
       "Decides only the structural clauses: optimise_operator rewrites a private deep copy, compares the rewritten operator with the "
       "untouched original at an input drawn on the original's domain through an assertion function and returns the copy; every "
       "FieldAdapter placeholder is created on the target of the operator it replaces, stored as [operator, placeholder], and every "
-      "store of such pairs is bound back with partial_insert(placeholder.adjoint(operator)). That the rewritten graph (a run-time "
+      "store of such pairs is bound back with partial_insert(placeholder.adjoint(operator)); the iterator consumed by the common-prefix loop is re-created per round and key lists grow and are walked in opposite directions. That the rewritten graph (a run-time "
       "rewrite keyed on object identity, with in-place domain repair) has the same value and Jacobian for every tree is not decided.",
       TRUST, "DESIGN.md section 9.11")
